@@ -57,7 +57,7 @@ def run_case(case, rep, record=True):
         h = walk.build_harness(case["source"], MODE_LIST[0])
         spec = h.spec
         envs = [h.env] + [sources.make_env(h.scn, **m) for m in MODE_LIST[1:]]
-        if case.get("foreign"):
+        if case.get("foreign") and case["foreign"] != "sibling":
             import nasim
             foreign = sources.make_env(nasim.load_scenario(sources.shipped_path(case["foreign"])))
         ok_names = expressible(spec)
@@ -69,9 +69,18 @@ def run_case(case, rep, record=True):
         for op in case["ops"]:
             nops += 1
             if op[0] == "x":
+                pre_mst = dict(h.mst)
                 compare_reset([e.reset() for e in envs], envs, h, "reset")
                 h.mst = spec.initial()
-                continue
+                # right after a reset: an action that passed in the abandoned state and is blocked now
+                stale = [a for a in walk.stale_candidates(h, pre_mst)
+                         if a.kind not in ("exploit", "privesc") or (a.kind, a.name) in ok_names]
+                if not stale:
+                    continue
+                op = ("stale", "lo", nops)
+                act_override = stale[nops % len(stale)]
+            else:
+                act_override = None
             if op[0] == "v":
                 for e in envs:
                     h.env = e
@@ -82,9 +91,9 @@ def run_case(case, rep, record=True):
                 if record:
                     rep.count("queries")
                 continue
-            if op[0] in ("g", "o", "b"):
+            if op[0] in ("g", "o", "b", "c"):
                 continue
-            act = h.choose(op)
+            act = act_override if act_override is not None else h.choose(op)
             if act.kind in ("exploit", "privesc") and (act.kind, act.name) not in ok_names:
                 if record:
                     rep.count("skipped-not-expressible")
@@ -185,7 +194,7 @@ class _Runner:
 def _shard(shard, seed, tier, n_cases):
     rep = Reporter(PID, tier, RULE)
     strat = engine.case_strategy(tier, dict(extras=True), weights=(12, 3, 5), min_ops=10, max_ops=50,
-                                 resets=True, gens=False, queries=True)
+                                 resets=True, gens=False, queries=True, reset_weight=3)
     engine.drive(_Runner(rep), strat, n_cases, seed)
     return rep
 
@@ -206,7 +215,7 @@ def main(tier, replay=None):
         run_case(dict(source={"kind": "shipped", "name": name}, modes={},
                       ops=[("p", i * 7, "lo" if i % 3 else "hi", i) for i in range(30)]), rep)
     nshards = 16 if tier == "thorough" else 8
-    total = 16 * 2000 if tier == "thorough" else 400
+    total = 16 * 2000 if tier == "thorough" else 800
     for p in engine.run_shards(_shard, nshards, common.verif_seed(), tier=tier, n_cases=total // nshards):
         rep.merge(p)
     runner = _Runner(Reporter(PID, tier, RULE))
